@@ -194,6 +194,19 @@ def inject_all(cfg):
         c["routers"].append(copy.deepcopy(cfg["routers"][0]))
         yield "duplicate-router-name", cfg["routers"][0]["name"], c
 
+    # --- a single router that takes the node name of an array / tree element (declared before the array)
+    for r in cfg["routers"]:
+        if isinstance(r.get("array"), list) and len(r["array"]) == 2:
+            clash = f"{r['name']}_0_0"
+        elif r.get("tree"):
+            clash = f"{r['name']}_0"
+        else:
+            continue
+        c = copy.deepcopy(cfg)
+        c["routers"].insert(0, {"name": clash})
+        yield "duplicate-node-name", f"router {clash} before {r['name']}", c
+        break
+
     # --- unknown fields / enumeration values
     for where in ["top", "routing", "endpoint", "router", "connection", "range"]:
         c = copy.deepcopy(cfg)
@@ -353,6 +366,9 @@ def inject_all(cfg):
                 con = c["connections"][k]
                 con["dst_dir" if con["dst"] == rt else "src_dir"] = 0
             yield "two-links-one-port", f"{rt}: connections {ks[0]},{ks[1]}", c
+            c2 = copy.deepcopy(c)
+            c2["connections"].reverse()
+            yield "two-links-one-port", f"{rt}: connections {ks[0]},{ks[1]}, declared in the opposite order", c2
     for r in cfg["routers"]:
         if isinstance(r.get("array"), list) and len(r["array"]) == 2 and r["array"][1] >= 2:
             for k, con in enumerate(cfg["connections"]):
@@ -371,3 +387,11 @@ def inject_all(cfg):
         c["connections"] = [k for k in c["connections"] if k["src"] != e["name"] and k["dst"] != e["name"]]
         if len(c["connections"]) < before:
             yield "unconnected-endpoint", e["name"], c
+
+
+def extra_negative(cfg):
+    """descriptions floogen is known to refuse that are not among the defect classes of C10: used by the
+    other checks to see what happens if a changed generator starts to accept them"""
+    c = copy.deepcopy(cfg)
+    c["routing"]["route_algo"] = "YX"
+    yield "yx-routing", "route_algo", c
